@@ -56,6 +56,7 @@ func propC12(c *Ctx, r *Report) {
 	// tolerance band tables
 	r.rule("C12/band-table", 8, "tolerance band constant, inclusive edges, in-band and out-of-band outcome per era")
 	bandTables(c, r, e)
+	ruleRatesReadComplete(c, r, "C12/rates-read-complete")
 	ruleNoCarriedDecision(c, r, "C12/band-table", c.fn("node.Pegnetd.GetAssetRates"), c.fn("node.Pegnetd.GetAssetRatesV0"))
 
 	// PEG phase table of InsertRates
@@ -480,5 +481,62 @@ func ruleNoCarriedDecision(c *Ctx, r *Report, rule string, fns ...*ssa.Function)
 			}
 		}
 		r.check(len(bad) == 0 && n > 0, rule, fname(f)+": each asset is judged on its own", c.pos(f.Pos()), fmt.Sprintf("%d loop variables: index and result list only", n), strings.Join(bad, "; ")+": a decision made for one asset (e.g. a narrowed tolerance) applies to the assets after it")
+	}
+}
+
+// ruleRatesReadComplete: the functions that read pn_rate rows into a map put every scanned row into it (no row is
+// left out on a condition): a stored 0 is information - it counts as a missing sample of the rolling average.
+func ruleRatesReadComplete(c *Ctx, r *Report, rule string) {
+	r.rule(rule, 1, "rate readers return every stored row")
+	n := 0
+	for _, f := range c.Funcs {
+		if f.Pkg == nil || f.Pkg.Pkg.Name() != "pegnet" {
+			continue
+		}
+		for _, l := range naturalLoops(f) {
+			driven := false
+			for b := range l.blocks {
+				for _, ins := range b.Instrs {
+					if ci, ok := ins.(ssa.CallInstruction); ok && calleeName(ci.Common()) == "database/sql.Rows.Next" {
+						driven = true
+					}
+				}
+			}
+			if !driven {
+				continue
+			}
+			for b := range l.blocks {
+				for _, ins := range b.Instrs {
+					mu, ok := ins.(*ssa.MapUpdate)
+					if !ok || shortType(mu.Map.Type()) != "map[fat2.PTicker]uint64" {
+						continue
+					}
+					n++
+					// rows may be filtered by their name (prefix, unknown ticker) - never by their value: no branch inside
+					// the loop tests the scanned rate
+					var valSlot ssa.Value
+					if u, ok := mu.Value.(*ssa.UnOp); ok && u.Op == token.MUL {
+						valSlot = u.X
+					}
+					bad := ""
+					for b := range l.blocks {
+						iff, ok := b.Instrs[len(b.Instrs)-1].(*ssa.If)
+						if !ok || valSlot == nil {
+							continue
+						}
+						if sliceHas(iff.Cond, func(v ssa.Value) bool {
+							u, ok := v.(*ssa.UnOp)
+							return ok && u.Op == token.MUL && u.X == valSlot
+						}) {
+							bad = c.ipos(iff)
+						}
+					}
+					r.check(bad == "" && valSlot != nil, rule, fname(f)+" stores every scanned rate row whatever its value", c.ipos(mu), "", "the branch at "+bad+" decides on the scanned rate: a row (e.g. a rate of 0) is dropped, so the averaging window misses the sample that marks the asset as unpriced in that block")
+				}
+			}
+		}
+	}
+	if n == 0 {
+		r.viol(rule, "rate readers", "-", "no loop over result rows filling a rate map found in package pegnet")
 	}
 }
